@@ -109,9 +109,13 @@ def judge(ctx, FST, root, lines_before, rect, text, domain, hist, MOD):
     before = (src, D(root.a), id(root))
     removed = '\n'.join(lines[ln:end_ln + 1])
     removed = removed[col:len(removed) - (len(lines[end_ln]) - end_col)]
-    case = {'workload': 'put_src', 'src0': hist['src0'], 'edits': hist['edits'] + [[ln, col, end_ln, end_col, text]], 'domain': domain}
+    from ..base import alias_coords
+    spelled = alias_coords(ctx.rnd, lines, ln, col, end_ln, end_col)
+    if spelled != (ln, col, end_ln, end_col):
+        ctx.count('coordinates_spelled_with_aliases(negative/end/clipped)')
+    case = {'workload': 'put_src', 'src0': hist['src0'], 'edits': hist['edits'] + [[ln, col, end_ln, end_col, text]], 'domain': domain, 'spelled': list(spelled)}
     try:
-        root.put_src(text, ln, col, end_ln, end_col)
+        root.put_src(text, *spelled)
         raised = None
     except Exception as e:
         raised = e
@@ -343,12 +347,13 @@ def replay(ctx, case):
     from ..base import D, refparse
     if case.get('workload') == 'put_src':
         root = FST(case['src0'], 'exec')
-        for ln, col, end_ln, end_col, text in case['edits']:
+        for ei, (ln, col, end_ln, end_col, text) in enumerate(case['edits']):
             src = root.src
             new_src = splice(src.split('\n'), ln, col, end_ln, end_col, text)
             ref, _ = refparse(new_src)
+            coords = case['spelled'] if ei == len(case['edits']) - 1 and case.get('spelled') else [ln, col, end_ln, end_col]
             try:
-                root.put_src(text, ln, col, end_ln, end_col)
+                root.put_src(text, *coords)
                 print('returned; ref', 'valid' if ref is not None else 'INVALID', '; equal:', ref is not None and root.src == new_src and D(ref) == D(root.a))
                 if ref is None or root.src != new_src or D(ref) != D(root.a):
                     ctx.violation('replayed', 'mismatch', case)
